@@ -4,10 +4,15 @@ A case is a generated population (list of statements over a generated schema, ke
 pool so that duplicate, dangling and null keys are the normal case) plus a list of *variants*: a permutation
 of the statements, a partition of the permuted list into parts, and a route by which the parts reach a loader
 (`input` calls, files given to `xtuml.load_metamodel`, files in a directory tree / members of a zip archive /
-a single file read by `bridgepoint.ooaofooa.ModelLoader.filename_input`).  Optionally the same rows are created
+a single file read by `bridgepoint.ooaofooa.ModelLoader.filename_input`; routes `bp-pkgdir` / `bp-pkgzip`: a BridgePoint
+project of nested packages <name>/<name>.xtuml read by a loader with or without the predefined globals - the variant
+carries `names` and `globals`).  Optionally the same rows are created
 through `MetaModel.new` (referred rows first) and by cloning the loaded instances into an empty metamodel.
 A case may carry `runit` = k: its REAL payloads then count multiples of 2**-k instead of 10**-6 (family `real-fine`: keys
 that are neighbours on a fine grid; the Lean model treats a REAL payload as an opaque integer, so K covers them as well).
+
+A case with `donly` (family `reflexive`: an association from a class to itself whose two ends carry the same phrase)
+has no model counterpart (model_line returns None); D is evaluated on it as on every other case.
 
   D  (property predicate; oracle = a nested loop over the rows' raw values *as generated*):
        linked(x, y) over association a  <=>  every referential value of x is non-null (not unset / id 0 / '')
@@ -50,6 +55,15 @@ RULE = ('random schemas (1-4 classes, 0-3 associations with 0-3 key attributes o
         '(quick: <= 6, and <= 7 on a sample), 50 random permutations otherwise; random partitions into 1-4 input '
         'calls / files / directory chain / wide directory (directory and file names with a leading dot, blanks and the glob characters [ ] * ?; sometimes two trees with equally named files) / members of one zip archive (in half of them consecutive members carry the SAME name) or of two archives with equally named members / one file through the bridgepoint loader, each part '
         'ending with a newline, right after its last `;`, with a `-- comment` that no newline ends, or with a bare `--`; '
+        'family bp-pkg (a further variant of small, big and reflexive populations): the parts reach a bridgepoint loader as a BridgePoint project - part i is the file '
+        '<name i>/<name i>.xtuml of a package nested in the package of part i - 1, in a directory tree or as the members of a zip archive, the package names drawn '
+        'from names a model may have, among them the names BridgePoint and the library use for resources of their own (Globals, globals, System, Datatypes, types, '
+        'ooaofooa, schema, sql, models, External Entities, Functions) - and the loader is one WITH the predefined globals (load_globals=True, the default; 60 %) or '
+        'without them: the generated classes, their rows and links must be those of one input() call; '
+        'family reflexive (D only, no model counterpart: Pyx.Load.inDomain demands distinct link keys): a plain population plus one or two associations from a class to ITSELF '
+        'whose two ends carry the SAME phrase (none in 75 %), 1-2 key attributes, the referential values of a row being the identifying values of another (mostly earlier) row, '
+        'a pool value, a null, or unset - loaded in 3 permutations / partitions / files / a bp-pkg project, created through new (referred rows first) and by cloning when the '
+        'expected links are acyclic; the link relation is checked in both directions, navigation across such an association is not (its two directions have one name); '
         'API and clone construction; rejected inputs (duplicate class, a class declaring an attribute name twice, unknown class or key in an association or '
         'identifier, key lists of different length, named INSERT with unequal lengths). Non-trivial = some association has both a linked and an '
         'unlinked (null, dangling) candidate pair; distinct = distinct statement text')
@@ -63,6 +77,9 @@ ASSUMPTIONS = [
     'unset: an unset key refers to nothing); any other missing attribute would take a generator-drawn / type default (C19)',
     'REAL values are dyadic rationals with at most six fraction digits (float() and %f are exact on them), in the family '
     'real-fine multiples of 2**-30 below 2**21 written with all their (at most 30) fraction digits (float() is exact on them)',
+    'a reflexive association whose two ends carry the same phrase is a schema of the property (the loader accepts it and the property speaks of every association); '
+    'which of its two directions a navigation by (kind, number, phrase) takes is not demanded',
+    'the generated kinds (KA..KE, KX, KY, KT, KX1, KX2) are not classes of the ooaofooa schema nor of its predefined globals (checked in setup)',
     'the order in which os.walk lists sibling files is the operating system\'s; the harness takes it from its own os.walk of the tree',
 ]
 TRUSTED_EXTRA = ['harness/loadgen.py (generator, SQL text writer, nested-loop oracle)']
@@ -220,7 +237,97 @@ def _real_fine_population(rng):
     return stmts
 
 
-_FAMILIES = ['small', 'seven', 'real-fine', 'big', 'api', 'shared', 'err']
+_FAMILIES = ['small', 'seven', 'reflexive', 'real-fine', 'big', 'api', 'shared', 'err']
+
+# BridgePoint stores a package P in the file P/P.xtuml and its sub-packages below P/: names of packages a model may
+# legitimately have, among them the names that BridgePoint / the library use for resources of their own
+_PKG_NAMES = ['Globals', 'types', 'System', 'Globals', 'Datatypes', 'globals', 'External Entities', 'ooaofooa', 'schema',
+              'Globals', 'Functions', 'sql', 'models']
+_PKG_ROUTES = ['bp-pkgdir', 'bp-pkgzip']
+
+
+def _pkg_variants(rng, stmts, k):
+    """k variants that reach a bridgepoint loader as a BridgePoint project: part number i is the file of a package
+    (<name i>/<name i>.xtuml) nested in the package of part i - 1, in a directory tree or as the members of a zip archive;
+    the loader is one WITH the predefined globals (the default of the library) or without them"""
+    n = len(stmts)
+    out = []
+    for _ in range(k):
+        o = list(range(n))
+        if rng.random() < 0.7:
+            rng.shuffle(o)
+        parts = _partition(rng, n)
+        out.append({'order': o, 'parts': parts, 'route': rng.choice(_PKG_ROUTES),
+                    'names': [rng.choice(_PKG_NAMES) for _ in parts], 'globals': rng.random() < 0.6})
+    return out
+
+
+def _add_reflexive(rng, stmts):
+    """adds to a population (in place) an association from a class to ITSELF whose two ends carry the SAME phrase (mostly
+    none at all): new referential attributes at the end of the class, which the rows of the class fill with the
+    identifying values of another row (mostly an earlier one, so that 'referred rows first' is possible), a null, a value
+    from the pool, or leave unset"""
+    classes = [s_ for s_ in stmts if s_['t'] == 'cls']
+    if not classes:
+        return False
+    c = rng.choice(classes)
+    kind = c['kind']
+    old = len(c['attrs'])
+    refs = _referential(stmts, kind)
+    plain = [a[0] for a in c['attrs'] if a[0] not in refs]
+    cands = plain if (plain and rng.random() < 0.8) else [a[0] for a in c['attrs']]
+    klen = min(len(cands), 1 if rng.random() < 0.7 else 2)
+    tkeys = rng.sample(cands, klen)
+    tys = dict((n_, t_) for n_, t_ in c['attrs'])
+    rows = [s_ for s_ in stmts if s_['t'] == 'insert' and s_['kind'] == kind]
+    before = [G.raw_row(stmts, r_) for r_ in rows]
+    skeys = []
+    for tkey in tkeys:
+        name = 'a%d' % len(c['attrs'])
+        c['attrs'].append([name, G.spell(rng, tys[tkey].upper())])
+        skeys.append(name)
+    for k, r_ in enumerate(rows):
+        if r_['names'] is None and len(r_['vals']) > old:
+            # a surplus value must not become the value of a new attribute
+            r_['vals'], r_['lex'] = r_['vals'][:old], r_['lex'][:old]
+        x = rng.random()
+        if x < 0.6 and len(rows) > 1:
+            j = rng.randrange(k) if (k and rng.random() < 0.8) else rng.choice([j_ for j_ in range(len(rows)) if j_ != k])
+            vals = [before[j].get(tk_) for tk_ in tkeys]
+        elif x < 0.8:
+            vals = [[G.TAG[tys[tk_]], rng.choice(G.POOL[tys[tk_]])] for tk_ in tkeys]
+        elif x < 0.9:
+            vals = [[G.TAG[tys[tk_]], {'u': 0, 's': ''}.get(G.TAG[tys[tk_]], rng.choice(G.POOL[tys[tk_]]))] for tk_ in tkeys]
+        else:
+            vals = [None for _ in tkeys]
+        if any(v_ is None for v_ in vals):
+            continue                        # left out: the attribute stays unset
+        vals = [list(v_) for v_ in vals]
+        if r_['names'] is None:
+            if len(r_['vals']) == old:
+                r_['vals'] = r_['vals'] + vals
+                r_['lex'] = r_['lex'] + [G.lexeme(v_, rng) for v_ in vals]
+        else:
+            r_['names'] = r_['names'] + skeys
+            r_['vals'] = r_['vals'] + vals
+            r_['lex'] = r_['lex'] + [G.lexeme(v_, rng) for v_ in vals]
+    nrel = 1 + max([int(a['rel'][1:]) for a in stmts if a['t'] == 'assoc'] or [0])
+    ph = '' if rng.random() < 0.75 else rng.choice(G.PHRASES)
+    stmts.insert(rng.randint(0, len(stmts)),
+                 {'t': 'assoc', 'rel': 'R%d' % nrel, 'sk': kind, 'scard': rng.choice(G.CARDS), 'skeys': skeys, 'sph': ph,
+                  'tk': kind, 'tcard': rng.choice(G.CARDS), 'tkeys': tkeys, 'tph': ph})
+    return True
+
+
+def _reflexive_population(rng):
+    stmts = None
+    while not stmts or not any(s_['t'] == 'insert' and G.class_of(stmts, s_['kind']) for s_ in stmts):
+        stmts = G.gen_population(rng, max_rows=rng.choice([2, 3, 4]), phrase_mode='plain', inferred_p=0.0,
+                                 allow_empty_keys=False, n_classes=rng.choice([1, 2, 2, 3]), max_assocs=rng.choice([0, 1, 2]))
+    _add_reflexive(rng, stmts)
+    if rng.random() < 0.2:
+        _add_reflexive(rng, stmts)
+    return stmts
 
 
 def generate(ctx):
@@ -231,7 +338,7 @@ def search(ctx, broken):
     """the enlarged search (an obligation or the correspondence is broken, no failing input yet): the same families
     with their thorough sizes, INTERLEAVED - every chunk of 60 cases holds cases of every family, so that the search
     budget is not spent on the first family alone"""
-    gens = [(_gen(ctx, fams), share) for fams, share in ((['small', 'seven'], 10), (['real-fine'], 10), (['big'], 4),
+    gens = [(_gen(ctx, fams), share) for fams, share in ((['small', 'seven'], 10), (['reflexive'], 10), (['real-fine'], 10), (['big'], 4),
                                                          (['api'], 20), (['shared'], 10), (['err'], 6))]
     while gens:
         alive = []
@@ -254,6 +361,7 @@ def _gen(ctx, fams):
     n_api = ctx.pick(260, 3000) * ('api' in fams)
     n_err = ctx.pick(40, 300) * ('err' in fams)
     n_shared = ctx.pick(60, 600) * ('shared' in fams)
+    n_refl = ctx.pick(40, 400) * ('reflexive' in fams)
     all_routes = ['files', 'bp-file', 'bp-dir', 'bp-dirwide', 'bp-zip', 'bp-load', 'keep-order']
     i = 0
     # small populations: every permutation
@@ -267,8 +375,8 @@ def _gen(ctx, fams):
             continue
         made += 1
         routes = r.sample(all_routes, 2) if made % 3 == 0 else ['keep-order']
-        yield {'fam': 'small', 'stmts': stmts, 'variants': _fix(r, stmts, _variants(r, len(stmts), 6, 0, routes)),
-               'api': made % 2 == 0}
+        yield {'fam': 'small', 'stmts': stmts, 'variants': _fix(r, stmts, _variants(r, len(stmts), 6, 0, routes))
+               + (_pkg_variants(r.fork('pkg'), stmts, 1) if made % 2 == 1 else []), 'api': made % 2 == 0}
     made = 0
     while made < n_seven:
         i += 1
@@ -278,6 +386,14 @@ def _gen(ctx, fams):
             continue
         made += 1
         yield {'fam': 'seven', 'stmts': stmts, 'variants': _fix(r, stmts, _variants(r, 7, 7, 0, [])), 'api': False}
+    # reflexive associations whose two ends carry the same phrase (D only: outside `Pyx.Load.inDomain`, which demands
+    # distinct link keys): loader, permutations, files, API and clone
+    for j in range(n_refl):
+        r = rng.fork('reflexive', j)
+        stmts = _reflexive_population(r)
+        yield {'fam': 'reflexive', 'donly': True, 'stmts': stmts,
+               'variants': _fix(r, stmts, _variants(r, len(stmts), 0, 3, ['keep-order', 'files']))
+               + _pkg_variants(r.fork('pkg'), stmts, 1), 'api': True}
     # REAL keys that differ only beyond the precision of a printed / narrowed form (every route: loader, files, new,
     # clone, batch_relate)
     for j in range(n_fine):
@@ -295,8 +411,8 @@ def _gen(ctx, fams):
         if len(stmts) < 2:
             continue
         routes = list(all_routes) if j % 2 == 0 else r.sample(all_routes, 3)
-        yield {'fam': 'big', 'stmts': stmts, 'variants': _fix(r, stmts, _variants(r, len(stmts), 7, 50, routes)),
-               'api': True}
+        yield {'fam': 'big', 'stmts': stmts, 'variants': _fix(r, stmts, _variants(r, len(stmts), 7, 50, routes))
+               + _pkg_variants(r.fork('pkg'), stmts, 1 + j % 2), 'api': True}
     # API / clone construction: 'plain' = the family on which D runs at full strength
     for j in range(n_api):
         r = rng.fork('api', j)
@@ -419,8 +535,36 @@ def _load(stmts, v, mine, cache=None):
                         z.writestr('models/p.xtuml', _part_text(p, n, v))
                 paths.append(fn)
             return _bp.load_metamodel(paths if len(paths) > 1 else paths[0], load_globals=False), v['order']
-        l = _bp.ModelLoader(load_globals=False)
         decoy = "INSERT INTO %s VALUES (1);\n" % (sorted(mine)[0] if mine else 'KA')   # wrong suffix: must not be read
+        if route in _PKG_ROUTES:
+            # a BridgePoint project: the package of part i is stored in <name i>/<name i>.xtuml below the package of part
+            # i - 1 (a chain: a top-down walk lists a directory's files before its sub-directories, an archive lists its
+            # members in the order they were written); names and the load_globals flag are part of the variant
+            names = [str(x) for x in (v.get('names') or [])] or ['pkg']
+            l = _bp.ModelLoader(load_globals=bool(v.get('globals')))
+            rel = ['proj', 'models', 'proj']
+            members = []
+            for n, p in enumerate(parts):
+                name = names[n % len(names)].replace('/', '_') or 'pkg'
+                rel = rel + [name]
+                members.append((rel + [name + '.xtuml'], _part_text(p, n, v)))
+            if route == 'bp-pkgdir':
+                os.makedirs(os.path.join(d, *rel))
+                with open(os.path.join(d, 'proj', '.project'), 'w') as f:
+                    f.write(decoy)
+                for path_, text in members:
+                    with open(os.path.join(d, *path_), 'w') as f:
+                        f.write(text)
+                l.filename_input(os.path.join(d, 'proj'))
+            else:
+                fn = os.path.join(d, 'proj.zip')
+                with zipfile.ZipFile(fn, 'w') as z:
+                    z.writestr('proj/.project', decoy)
+                    for path_, text in members:
+                        z.writestr('/'.join(path_), text)
+                l.filename_input(fn)
+            return l.build_metamodel(), v['order']
+        l = _bp.ModelLoader(load_globals=False)
         if route == 'bp-file':
             fn = os.path.join(d, 'all.xtuml')
             with open(fn, 'w') as f:
@@ -716,6 +860,10 @@ def _check_navigation(stmts, v, m, expected, fail, mine):
     ids = _ids_by_kind(stmts, v['order'])
     for ai, a in enumerate(stmts):
         if a['t'] != 'assoc':
+            continue
+        if a['sk'] == a['tk'] and a['sph'] == a['tph']:
+            # (kind, number, phrase) names both directions of this association: which one a navigation takes is not
+            # something the property speaks of; its links are checked on the link relation itself (_check_exact)
             continue
         try:
             sc, tc = m.find_metaclass(a['sk']), m.find_metaclass(a['tk'])
@@ -1228,6 +1376,8 @@ def _api_order(stmts):
 
 def model_line(case, orders=None):
     stmts = case['stmts']
+    if case.get('donly'):
+        return None         # a family outside the model's domain (Pyx.Load.inDomain): the property predicate D only
     orders = orders if orders is not None else [v['order'] for v in case['variants']]
     vs = [[G.enc_stmt(stmts[i]) for i in o] for o in orders]
     api = Sym('none')
@@ -1264,5 +1414,5 @@ def shrink_candidates(case):
         nv = []
         for v in vs:
             o = [i - (1 if i > k else 0) for i in v['order'] if i != k]
-            nv.append({'order': o, 'parts': [len(o)], 'route': v['route']})
+            nv.append(dict(v, order=o, parts=[len(o)]))
         yield dict(case, stmts=new, variants=nv)
